@@ -105,6 +105,8 @@ pub fn observations(w: &World, l: &mut Local) -> Value {
     txt_of("unquoted-string-with-escape", "a 1 IN TXT a\\\"b\\\\c\n");
     // \DDD in a quoted string is not the octet DDD
     txt_of("quoted-string-with-DDD", "a 1 IN TXT \"x\\065y\"\n");
+    // \\DDD in a NAME is read as OCTAL (RFC 1035: decimal)
+    txt_of("name-with-DDD", "a\\065b 1 IN A 192.0.2.1\n");
     // a quoted string may span lines
     txt_of("quoted-string-across-lines", "a 1 IN TXT \"x\ny\"\n");
     // a relative $ORIGIN argument is not completed with the current origin
@@ -270,7 +272,7 @@ pub fn apply(text: &[u8], e: Edit) -> Vec<u8> {
     v
 }
 
-pub fn edits(ctx: &Ctx, w: &World, seeds: &[Seed], scratch: &Path, double_on: usize) -> (u64, u64) {
+pub fn edits(ctx: &Ctx, w: &World, seeds: &[Seed], scratch: &Path, double_on: usize, double_also: &[Seed]) -> (u64, u64) {
     // offsets
     let mut offs = vec![0u64];
     for s in seeds {
@@ -299,8 +301,8 @@ pub fn edits(ctx: &Ctx, w: &World, seeds: &[Seed], scratch: &Path, double_on: us
     order.sort_by_key(|i| (seeds[*i].text.len(), *i));
     order.truncate(double_on);
     let mut doubles = 0u64;
-    for si in order {
-        let s = &seeds[si];
+    let dseeds: Vec<&Seed> = order.iter().map(|i| &seeds[*i]).chain(double_also.iter()).collect();
+    for s in dseeds {
         let n1 = edit_count(s.text.len());
         let cnt = Mutex::new(0u64);
         ctx.par_run(n1, 4, |i, l| {
@@ -358,6 +360,9 @@ pub fn families(thorough: bool) -> Vec<Family> {
         Family { name: "quoted-escapes", max_pow: 16, build: |n| format!("a 1 IN TXT \"{}\"\n", "\\\\".repeat(n)) },
         Family { name: "paren-group-tokens", max_pow: 16, build: |n| format!("a 1 IN TXT ( {})\n", "x ".repeat(n)) },
         Family { name: "paren-group-lines", max_pow: 16, build: |n| format!("a 1 IN TXT (\n{})\n", "x\n".repeat(n)) },
+        Family { name: "paren-group-quoted", max_pow: 16, build: |n| format!("a 1 IN TXT ( {})\n", "\"x y\" ".repeat(n)) },
+        Family { name: "paren-group-comment-lines", max_pow: 16, build: |n| format!("a 1 IN TXT (\n{})\n", "x ; c\n".repeat(n)) },
+        Family { name: "many-paren-records", max_pow: 16, build: |n| "a 1 IN TXT (\n x\n y )\n".repeat(n) },
         Family { name: "paren-nesting", max_pow: 16, build: |n| format!("a 1 IN TXT {}{}\n", "(".repeat(n), ")".repeat(n)) },
         Family { name: "paren-unclosed", max_pow: 16, build: |n| format!("a 1 IN TXT {}\n", "( x ".repeat(n)) },
         Family { name: "whitespace-run", max_pow: 16, build: |n| format!("a 1 IN A{}192.0.2.1\n", " ".repeat(n)) },
@@ -418,7 +423,15 @@ pub fn growth(ctx: &Ctx, w: &World, thorough: bool) -> Vec<GrowthPoint> {
     let fams = families(thorough);
     let mut cases: Vec<(usize, u32)> = vec![];
     for (fi, f) in fams.iter().enumerate() {
-        for p in 0..=f.max_pow {
+        // thorough: the families that are linear in the text go on to 2^20 characters (2^18 records)
+        let top = if !thorough || f.max_pow < 16 {
+            f.max_pow
+        } else if f.name.starts_with("records") || f.name == "origin-directives" || f.name == "include" {
+            18
+        } else {
+            20
+        };
+        for p in 0..=top {
             cases.push((fi, p));
         }
     }
@@ -525,4 +538,128 @@ pub fn includes(ctx: &Ctx, w: &World, dir: &Path) -> Vec<GrowthPoint> {
         }
     });
     out
+}
+
+/// Two short files of the chain-triple family (inheritance of owner, TTL, class; `$TTL`, `$ORIGIN`)
+/// whose complete 2-edit neighbourhoods are run in BOTH tiers.
+pub fn chain_seeds() -> Vec<Seed> {
+    vec![
+        Seed { text: "@ 300 IN A 192.0.2.1\na MX 0 mail\n TXT \"hello\"\n".into(), what: "chain: @ / relative owner / inherited owner, TTL and class inherited".into() },
+        Seed { text: "$TTL 300\na CH A 192.0.2.1\n$ORIGIN sub.ex.test.\nb 9 IN MX 0 @\n".into(), what: "chain: $TTL, class change, $ORIGIN change, relative owner, @ in RDATA".into() },
+    ]
+}
+
+/// Independent evaluation of a TTL token: decimal, or BIND-style <number><unit> groups with an
+/// optional trailing number (seconds). None = not a TTL / does not fit 32 bits.
+pub fn ref_ttl(tok: &str) -> Option<u64> {
+    if tok.is_empty() {
+        return None;
+    }
+    let mut total: u64 = 0;
+    let mut num: Option<u64> = None;
+    for c in tok.chars() {
+        match c {
+            '0'..='9' => {
+                let v = num.unwrap_or(0).checked_mul(10)?.checked_add(c as u64 - '0' as u64)?;
+                if v > u32::MAX as u64 {
+                    return None;
+                }
+                num = Some(v);
+            }
+            's' | 'S' | 'm' | 'M' | 'h' | 'H' | 'd' | 'D' | 'w' | 'W' => {
+                let n = num.take()?;
+                let mult = match c.to_ascii_lowercase() {
+                    's' => 1,
+                    'm' => 60,
+                    'h' => 3600,
+                    'd' => 86400,
+                    _ => 604800,
+                };
+                total = total.checked_add(n.checked_mul(mult)?)?;
+                if total > u32::MAX as u64 {
+                    return None;
+                }
+            }
+            _ => return None,
+        }
+    }
+    if let Some(n) = num {
+        total = total.checked_add(n)?;
+    }
+    if total > u32::MAX as u64 {
+        None
+    } else {
+        Some(total)
+    }
+}
+
+pub const TTL_ALPHABET: &[u8; 12] = b"012479smhdWx";
+pub const TTL_BOUNDARY: [&str; 22] = [
+    "2147483647", "2147483648", "4294967295", "4294967296", "99999999999", "00000000000000000300", "4294967295s", "4294967296s",
+    "71582788m", "71582789m", "1193046h", "1193047h", "49710d", "49711d", "7101w", "7102w", "4294967295s1s", "0w0d0h0m0s", "1W1D1H1M1S",
+    "4294967295w", "3w3w", "18446744073709551616",
+];
+
+/// Every token of length <= `max_len` over digits + unit letters (plus boundary values around
+/// 2^31 and 2^32) as the TTL of a record, as the `$TTL` argument and as SOA refresh.
+/// Judged: no panic; an all-digit token (RFC 1035: "TTL is a decimal integer") of value
+/// <= 2^31-1 must load with exactly that TTL. Everything else (units are a BIND extension,
+/// values above 2^31-1 are undefined by RFC 2181) is compared with `ref_ttl` and only counted.
+pub fn ttl_tokens(ctx: &Ctx, w: &World, max_len: usize) -> u64 {
+    let mut toks: Vec<String> = TTL_BOUNDARY.iter().map(|s| s.to_string()).collect();
+    for len in 1..=max_len {
+        let n = vcore::enumerate::pow(12, len as u32);
+        let mut buf = vec![];
+        for i in 0..n {
+            vcore::enumerate::string_at(TTL_ALPHABET, len, i, &mut buf);
+            toks.push(String::from_utf8(buf.clone()).unwrap());
+        }
+    }
+    let n = toks.len() as u64 * 3;
+    ctx.par_run(n, 512, |i, l| {
+        let tok = &toks[(i / 3) as usize];
+        let pos = i % 3;
+        let text = match pos {
+            0 => format!("a {tok} IN A 192.0.2.1\n"),
+            1 => format!("$TTL {tok}\na IN A 192.0.2.1\n"),
+            _ => format!("a 5 IN SOA a a 1 {tok} 3 4 5\n"),
+        };
+        l.eval();
+        let res = catch(|| Parser::new(text.clone(), None, Some(w.horigin.clone())).parse());
+        let case = || json!({"kind": "text", "family": "ttl-token", "text": text, "with_origin": true});
+        let got: Option<u64> = match res {
+            Err(p) => {
+                l.violation(&panic_key(&p), &format!("parser panicked on TTL token {tok:?}: {}", p.msg), case);
+                return;
+            }
+            Ok(Err(_)) => None,
+            Ok(Ok((_o, m))) => m.values().flat_map(|rs| rs.records_without_rrsigs()).next().map(|r| match (&r.data, pos) {
+                (hickory_proto::rr::RData::SOA(soa), 2) => soa.refresh as u64,
+                _ => r.ttl as u64,
+            }),
+        };
+        let all_digits = tok.bytes().all(|b| b.is_ascii_digit());
+        let want = ref_ttl(tok);
+        if all_digits && pos < 2 && want.map(|v| v <= i32::MAX as u64).unwrap_or(false) {
+            if got != want {
+                l.violation(
+                    &format!("valid:decimal-ttl:{}", if pos == 0 { "record" } else { "$TTL" }),
+                    &format!("decimal TTL {tok:?} loaded as {got:?}, expected {want:?}"),
+                    case,
+                );
+            } else {
+                l.outcome("ttl-token:decimal:exact");
+                l.nontrivial(fnv64(text.as_bytes()));
+            }
+            return;
+        }
+        // not judged: BIND units, values above 2^31-1, SOA fields
+        let want = if pos == 2 { want.filter(|v| *v <= i32::MAX as u64) } else { want };
+        if got == want {
+            l.outcome(if got.is_some() { "obs:ttl-token:agrees-with-reference:value" } else { "obs:ttl-token:agrees-with-reference:rejected" });
+        } else {
+            l.outcome_sample("obs:ttl-token:differs-from-reference", || json!({"token": tok, "position": pos, "loaded": got, "reference": want}));
+        }
+    });
+    n
 }
